@@ -35,13 +35,15 @@ func (h *History) Load(filename string) {
 			}
 			panic(err)
 		}
-		line = bytes.TrimSpace(line)
 		if 0 < len(line) {
+			// Blanks are part of the form so the line is not trimmed.
 			var form Form
 			for _, sub := range bytes.Split(line, []byte{'\t'}) {
 				form = append(form, []rune(string(sub)))
 			}
-			h.forms = append(h.forms, form)
+			if !form.Empty() {
+				h.forms = append(h.forms, form)
+			}
 		}
 	}
 }
